@@ -8,17 +8,18 @@ GPTS = (16, 12)
 ENERGY = 100e3
 
 
-def atoms(name):
+def atoms(name, pbc=True):
+    """Periodic structures (pbc=True, as ase's crystal builders produce them)."""
     import ase
 
     if name == "A0":
-        return ase.Atoms("C", positions=[(1.3, 2.1, 1.0)], cell=(4, 4, 2))
+        return ase.Atoms("C", positions=[(1.3, 2.1, 1.0)], cell=(4, 4, 2), pbc=pbc)
     if name == "A1":
-        return ase.Atoms("SiC", positions=[(0.5, 0.7, 1.0), (2.0, 1.5, 2.5)], cell=(4, 3, 4))
+        return ase.Atoms("SiC", positions=[(0.5, 0.7, 1.0), (2.0, 1.5, 2.5)], cell=(4, 3, 4), pbc=pbc)
     if name == "A2":  # one atom exactly on a slice boundary (z=2 with 2 A slices), one at z=0, one at the cell edge
-        return ase.Atoms("CSiC", positions=[(1.0, 1.0, 2.0), (2.5, 0.4, 0.0), (3.999, 2.0, 3.1)], cell=(4, 3, 4))
+        return ase.Atoms("CSiC", positions=[(1.0, 1.0, 2.0), (2.5, 0.4, 0.0), (3.999, 2.0, 3.1)], cell=(4, 3, 4), pbc=pbc)
     if name == "A3":
-        return ase.Atoms("Au", positions=[(2.0, 1.5, 1.7)], cell=(4, 3, 4))
+        return ase.Atoms("Au", positions=[(2.0, 1.5, 1.7)], cell=(4, 3, 4), pbc=pbc)
     raise KeyError(name)
 
 
